@@ -135,8 +135,88 @@ func Load(o LoadOpts) (*Program, error) {
 	if p.NumFuncs == 0 {
 		return nil, fmt.Errorf("no SSA functions")
 	}
+	p.indexGlobalStringLists()
 	p.LoadSecs = time.Since(t0).Seconds()
 	return p, nil
+}
+
+// globalStringLists: package-level variables initialised with a literal list of constant
+// strings and never assigned elsewhere (`var keys = []string{"a", "b"}`): the elements.
+var globalStringLists = map[*ssa.Global][]string{}
+
+func (p *Program) indexGlobalStringLists() {
+	globalStringLists = map[*ssa.Global][]string{}
+	for path, pk := range p.Pkgs {
+		sp := p.SSAPkgs[path]
+		ev := &Evaluator{P: p, Pkg: pk}
+		for _, f := range pk.Syntax {
+			for _, d := range f.Decls {
+				gd, ok := d.(*ast.GenDecl)
+				if !ok || gd.Tok != token.VAR {
+					continue
+				}
+				for _, sp2 := range gd.Specs {
+					vs, ok := sp2.(*ast.ValueSpec)
+					if !ok || len(vs.Names) != len(vs.Values) {
+						continue
+					}
+					for i, name := range vs.Names {
+						cl, ok := vs.Values[i].(*ast.CompositeLit)
+						if !ok {
+							continue
+						}
+						v := ev.Eval(cl)
+						if v.Kind != "list" && v.Kind != "slice" && v.Kind != "array" {
+							continue
+						}
+						var out []string
+						okAll := len(v.Elems) > 0
+						for _, e := range v.Elems {
+							s, isS := e.Str()
+							if !isS {
+								okAll = false
+								break
+							}
+							out = append(out, s)
+						}
+						if !okAll {
+							continue
+						}
+						if g, isG := sp.Members[name.Name].(*ssa.Global); isG {
+							globalStringLists[g] = out
+						}
+					}
+				}
+			}
+		}
+	}
+	// drop globals that are written outside the package initialiser
+	for fn := range ssautil.AllFunctions(p.SSA) {
+		if fn.Pkg == nil || p.Pkgs[fn.Pkg.Pkg.Path()] == nil || fn.Name() == "init" {
+			continue
+		}
+		for _, b := range fn.Blocks {
+			for _, ins := range b.Instrs {
+				if st, ok := ins.(*ssa.Store); ok {
+					base := st.Addr
+					for {
+						if ia, isIA := base.(*ssa.IndexAddr); isIA {
+							base = ia.X
+							continue
+						}
+						if u, isU := base.(*ssa.UnOp); isU {
+							base = u.X
+							continue
+						}
+						break
+					}
+					if g, isG := base.(*ssa.Global); isG {
+						delete(globalStringLists, g)
+					}
+				}
+			}
+		}
+	}
 }
 
 // CHA returns the class-hierarchy call graph (built lazily).
